@@ -218,10 +218,14 @@ package ship
 //@   ensures [C11] F1-step: @F1STEP(c)
 //@   ensures [C06] B8-keep: @BUFKEEP(c)
 //@   modifies @hs(c)
+// a close announce / confirm ends the connection before the reader takes the next message: either the message went
+// to the state machine, or the connection has ended, or it was a close message with a phase this side ignores
+//@ macro CLOSEPHASE() := cast($decoded, model.ConnectionClose).ConnectionClose.Phase
 //@ func (c *ShipConnection).handleShipMessage(timeout, message) [C04,C01]
 //@   requires roleOK(c.role, c.smeState)
 //@   requires @TINV(c) && @CLOSEOK(c) && @READER(c) && !c.shutdownOnce.$done
 //@   ensures [C04] E3-step: stepOK(c.role, old(c.smeState), c.smeState)
+//@   ensures [C04] E7-close-final: called(handleState) || c.shutdownOnce.$done || (@CLOSEPHASE() != model.ConnectionClosePhaseTypeAnnounce && @CLOSEPHASE() != model.ConnectionClosePhaseTypeConfirm)
 //@   ensures [C04] E4-timer: @TINV(c)
 //@   ensures [C04] E6-closed: @CLOSEOK(c)
 //@   ensures [C01] G4-reader: @READER(c)
